@@ -2,6 +2,8 @@ package rules
 
 import (
 	"go/ast"
+	"go/types"
+	"sort"
 	"strings"
 
 	"verif/checker/eng"
@@ -49,6 +51,137 @@ func runC15(p *eng.Prog, r *eng.Report, tier string) {
 	serveLockWait(c, "C15.8")
 	// C15.9 a cancelled Expect removes only its own registration
 	c15ExpectOwnEntry(c)
+	// C15.10 a stream belongs to its two parties, not to whoever knows the sid
+	c15SenderIsPeer(c)
+	// C15.11 the peer's close is answered whatever the local flush says
+	c15CloseAnswered(c)
+}
+
+// c15SenderIsPeer: the routing table is keyed by the sid alone. On the serve
+// goroutine, every use of a stream that was found by a lookup in
+// Handler.streams (a method call on it, a read or write of its fields) is
+// dominated by a comparison of the stanza's sender with the stream's peer
+// (stanzaWriter.to), directly or through a predicate whose body is that
+// comparison. Otherwise a third party that knows the sid injects bytes into,
+// desynchronises or closes somebody else's stream.
+func c15SenderIsPeer(c *cx) {
+	id := "C15.10"
+	// predicates of Conn that compare their argument with the peer address
+	preds := map[string]bool{}
+	for _, f := range c.allFns() {
+		if !strings.HasPrefix(f.Short, "ibb.(*Conn).") || f.Body == nil || f.Sig().Params().Len() != 1 || f.Sig().Results().Len() != 1 || eng.TypeStr(f.Sig().Results().At(0).Type()) != "bool" {
+			continue
+		}
+		for _, cl := range f.Calls("jid.JID.Equal") {
+			sel, ok := ast.Unparen(cl.Fun).(*ast.SelectorExpr)
+			if !ok || len(cl.Args) != 1 {
+				continue
+			}
+			a, b := f.Norm(sel.X, nil), f.Norm(cl.Args[0], nil)
+			if (a == "p0" && b == "recv.stanzaWriter.to") || (b == "p0" && a == "recv.stanzaWriter.to") {
+				preds[strings.Replace(strings.Replace(f.Short, "(*", "", 1), ")", "", 1)] = true
+			}
+		}
+	}
+	n := 0
+	for _, name := range []string{"handlePayload", "(*Handler).HandleIQ", "(*Handler).HandleMessage"} {
+		f := c.fn(id, "ibb", name)
+		if f == nil {
+			continue
+		}
+		g := f.Graph()
+		for _, d := range g.AllDefs() {
+			if d.Kind != eng.DefCommaOk || d.Index != 0 || d.RHS == nil {
+				continue
+			}
+			ix, ok := ast.Unparen(d.RHS).(*ast.IndexExpr)
+			if !ok {
+				continue
+			}
+			if k, _ := f.FieldClass(ix.X); k != "ibb.Handler.streams" {
+				continue
+			}
+			conn := d.Var
+			// uses of conn reached by this lookup
+			f.WalkBody(func(nd ast.Node) bool {
+				sel, ok := nd.(*ast.SelectorExpr)
+				if !ok {
+					return true
+				}
+				idn, ok := ast.Unparen(sel.X).(*ast.Ident)
+				if !ok || f.Info().Uses[idn] != types.Object(conn) {
+					return true
+				}
+				pt, okp := g.Where(sel)
+				if !okp || g.UniqueDef(conn, pt) != d {
+					return true
+				}
+				// the guard itself
+				if preds["ibb.Conn."+sel.Sel.Name] {
+					return true
+				}
+				n++
+				pats := []string{"jid.JID.Equal[*](*.stanzaWriter.to)", "jid.JID.Equal[*.stanzaWriter.to](*)"}
+				for p := range preds {
+					pats = append(pats, p+"[*](*)")
+				}
+				sort.Strings(pats)
+				okd, why := g.DominatedAny(pt, pats)
+				c.r.Check(id, f, "use of the stream found by sid: "+sel.Sel.Name, "G: a stream found by its sid is used only after the stanza's sender was compared with the stream's peer", sel.Pos(), okd, why)
+				return true
+			})
+		}
+	}
+	c.r.Floor(id, "uses of streams found by sid on the serve goroutine", n, 3)
+}
+
+// c15CloseAnswered: the error of closeNoNotify (flushing what was buffered
+// locally: it carries the sticky error of an earlier refused packet) never
+// becomes the return value of the handler: the peer's close is answered and
+// the session is not ended because of it.
+func c15CloseAnswered(c *cx) {
+	id := "C15.11"
+	f := c.fn(id, "ibb", "(*Handler).HandleIQ")
+	if f == nil {
+		return
+	}
+	g := f.Graph()
+	n := 0
+	for _, cl := range f.Calls("ibb.Conn.closeNoNotify") {
+		n++
+		cp, _ := g.Where(cl)
+		bad := ""
+		// the variable the result is assigned to, if any
+		for _, d := range g.AllDefs() {
+			if d.RHS == nil || ast.Unparen(d.RHS) != ast.Expr(cl) {
+				continue
+			}
+			for _, rs := range g.Returns {
+				rp, _ := g.Where(rs)
+				for _, r := range rs.Results {
+					if idn, ok := ast.Unparen(r).(*ast.Ident); ok && f.Info().Uses[idn] == types.Object(d.Var) {
+						for _, rd := range g.ReachingDefs(d.Var, rp) {
+							if rd == d {
+								bad = "the result of closeNoNotify is returned at " + c.p.Pos(rs.Pos())
+							}
+						}
+					}
+				}
+			}
+		}
+		if rs, isRet := g.Parent(cl).(*ast.ReturnStmt); isRet {
+			bad = "the result of closeNoNotify is returned at " + c.p.Pos(rs.Pos())
+		}
+		isResult := func(q eng.Point, nd ast.Node) bool { return f.ContainsCall(nd, "stanza.IQ.Result") != nil }
+		for _, rs := range g.Returns {
+			rp, _ := g.Where(rs)
+			if bad == "" && g.Reachable(g.After(cp), rp, nil, isResult) {
+				bad = "the return at " + c.p.Pos(rs.Pos()) + " is reachable after closeNoNotify without the result having been written"
+			}
+		}
+		c.r.Check(id, f, "close answered after closeNoNotify", "O: after the stream was closed locally every path writes the result of the close request; the local flush error is not the handler's error", cl.Pos(), bad == "", bad)
+	}
+	c.r.Floor(id, "calls of closeNoNotify in HandleIQ", n, 1)
 }
 
 // c15ExpectOwnEntry: Expect registers an entry, releases the table lock and
@@ -164,8 +297,8 @@ func c15Payload(c *cx) {
 	g := f.Graph()
 	// refusal arms: condition edge -> stanza condition
 	table := []struct{ what, edge, cond string }{
-		{"unknown sid", "!commaok(p0.streams[p2.SID])", "stanza.ItemNotFound"},
-		{"out of sequence", "!eq(*.seq,p2.Seq)", "stanza.UnexpectedRequest"},
+		{"unknown sid", "*!commaok(p0.streams[p*.SID])*", "stanza.ItemNotFound"},
+		{"out of sequence", "!eq(*.seq,p*.Seq)", "stanza.UnexpectedRequest"},
 		{"buffer overflow", "and(lt(0,*.maxBufSize) & lt(*.maxBufSize,*))", "stanza.ResourceConstraint"},
 		{"undecodable data", "!eq(encoding/base64.Encoding.Decode[*](*)#1,nil)", "stanza.BadRequest"},
 	}
@@ -257,7 +390,7 @@ func c15Payload(c *cx) {
 			}
 		}
 		c.r.Check(id, f, "receive buffer filled with completely decoded data", "S: the bytes of a packet reach the receive buffer only after the whole packet was decoded", cl.Pos(), !streaming, "the buffer is filled through a streaming base64 decoder: the bytes that decoded before a corruption are delivered although the packet is refused")
-		c.dom(id, f, cl, "write into the receive buffer", []string{"commaok(p0.streams[p2.SID])", "eq(*.seq,p2.Seq)"})
+		c.dom(id, f, cl, "write into the receive buffer", []string{"commaok(p0.streams[p*.SID])", "eq(*.seq,p*.Seq)"})
 		c.domAny(id, f, cl, "write into the receive buffer [size test]", []string{"or(!lt(0,*.maxBufSize) | !lt(*.maxBufSize,*))"})
 		// ... and the size that was tested is the size that is written (an upper
 		// bound such as DecodedLen over-counts padded groups and refuses a packet
@@ -296,7 +429,7 @@ func c15Seq(c *cx) {
 					c.r.Check(id, f, "sender's counter advanced only after a successful send", "G: seq++ is dominated by err == nil of the send", w.Stmt.Pos(), okd, "seq++ reachable after a failed send")
 				}
 				if k == "ibb.Conn.seq" {
-					c.dom(id, f, w.Stmt, "receiver's counter advanced only for the expected packet", []string{"eq(*.seq,p2.Seq)"})
+					c.dom(id, f, w.Stmt, "receiver's counter advanced only for the expected packet", []string{"eq(*.seq,p*.Seq)"})
 					// ... and only for a packet that is ACCEPTED: every refusal
 					// (size, undecodable data) comes before the counter moves,
 					// otherwise a refused packet kills the stream for the real sender
@@ -562,7 +695,7 @@ func c15CloseAs(c *cx, id string) {
 	if hi != nil {
 		g := hi.Graph()
 		ok := false
-		for _, ce := range g.EdgesMatching("!commaok(recv.streams[*])") {
+		for _, ce := range g.EdgesMatching("*!commaok(recv.streams[*])*") {
 			for _, nd := range g.ReachableNodes(g.EdgeTarget(ce.E), nil) {
 				if cl := hi.ContainsCall(nd, "stanza.IQ.Error"); cl != nil {
 					if lit, isLit := ast.Unparen(cl.Args[0]).(*ast.CompositeLit); isLit {
